@@ -208,6 +208,49 @@ def jsonable(x):
     return x
 
 
+# ---- forms of a boolean / integer / float option value (truthy-falsy values that are not the singletons True / False,
+# ---- valid falsy values in each numeric form).  A case carries the CANONICAL value (True / False, the Python int / float) in
+# ---- its parameters - keys, width rows of the tie and the reference construction use that - and `forms: {option: form}`
+# ---- says in which form the call under test hands it over.
+
+FLAG_FORMS = ("bool", "np.bool_", "int")
+NUM_FORMS = ("int", "np.int64", "float", "np.float64")
+
+
+def form_value(v, form):
+    if v is None:
+        return None
+    return {"bool": bool, "np.bool_": np.bool_, "int": int, "np.int64": np.int64, "np.int32": np.int32, "float": float,
+            "np.float64": np.float64, "np.float32": np.float32}[form](v)
+
+
+def apply_forms(kw, forms):
+    """-> copy of the keyword dictionary `kw` (constructor keywords, `opt_params` one level down) with every option named in
+    `forms` converted to its form."""
+    if not forms:
+        return kw
+    out = dict(kw)
+    if isinstance(out.get("opt_params"), dict):
+        out["opt_params"] = dict(out["opt_params"])
+    for k_, form in forms.items():
+        if k_ in out:
+            out[k_] = form_value(out[k_], form)
+        if isinstance(out.get("opt_params"), dict) and k_ in out["opt_params"]:
+            out["opt_params"][k_] = form_value(out["opt_params"][k_], form)
+    return out
+
+
+def kw_option(kw, name):
+    """Value of the option `name` in a keyword dictionary (constructor keyword or key of `opt_params`)."""
+    if name in kw:
+        return kw[name]
+    return (kw.get("opt_params") or {}).get(name)
+
+
+def forms_tag(forms):
+    return ",".join(f"{k_}={forms[k_]}" for k_ in sorted(forms or {}))
+
+
 # ------------------------------------------------------------------------------------------------
 # class registry
 # ------------------------------------------------------------------------------------------------
@@ -433,6 +476,8 @@ class U2Gate(GateSpec):
         kw = {"ctrl_state": p.get("cs")}
         if "error" in p:
             kw["error"] = p["error"]
+        if "utd" in p:
+            kw["up_to_diagonal"] = p["utd"]          # Mcg only
         return [u, p["k"]], kw
 
 
@@ -494,11 +539,43 @@ def key_of(case):
 # case runners (each is re-executable from its JSON `case` dict = the replay)
 # ------------------------------------------------------------------------------------------------
 
-def build_case(case):
+def build_case(case, canon=False):
+    """-> (spec, positional arguments, keywords) of the case; option values in the form `p["forms"]` names (`canon`: in their
+    canonical form - the reference construction of a case that carries forms)."""
     spec = REG[case["cls"]]
     r = _rng(case.get("seed", 0))
     args, kw = spec.inputs(case["p"], r)
+    if not canon:
+        kw = apply_forms(kw, case["p"].get("forms"))
     return spec, args, kw
+
+
+def form_vs_canonical(ctx, case, spec, gate, key):
+    """A case that hands an option over in a non-canonical form: the gate must be the gate of the canonical value (same width,
+    same operator).  -> False after reporting a difference."""
+    forms = case["p"].get("forms")
+    if not forms:
+        return True
+    tag = forms_tag(forms)
+    try:
+        _, a0, k0 = build_case(case, canon=True)
+        g0 = spec.build(a0, k0)
+        d0, d1 = g0.definition, gate.definition
+        if (g0.num_qubits, d0.num_qubits) != (gate.num_qubits, d1.num_qubits):
+            ctx.fail(f"flagforms:{spec.name}:{tag}:width", f"{spec.name} with {tag}: declared/definition width "
+                     f"{gate.num_qubits}/{d1.num_qubits}, with the canonical value {g0.num_qubits}/{d0.num_qubits} [{key}]", case)
+            return False
+        err = _dv_same(d0, d1) if d0.num_qubits <= 9 else same_operator(d0, d1)
+    except Exception as e:
+        ctx.fail(f"flagforms:{spec.name}:{tag}:raise", f"{spec.name} with {tag} raised {type(e).__name__}: {str(e)[:160]} [{key}]", case)
+        return False
+    if err > TOL:
+        ctx.fail(f"flagforms:{spec.name}:{tag}:operator", f"{spec.name} with {tag}: definition differs from the one built with the "
+                 f"canonical value by {err:.3e} [{key}]", case)
+        return False
+    for k_, f_ in forms.items():
+        ctx.count(f"flagforms:{k_}:{f_}")
+    return True
 
 
 def run_width(ctx, case):
@@ -514,6 +591,8 @@ def run_width(ctx, case):
         return
     ctx.tie(spec.width_op(case["p"]), [f"decl {decl}", f"circ {circ}"], label=key)
     ctx.count("width:" + spec.name)
+    if not form_vs_canonical(ctx, case, spec, gate, key):
+        return
     if decl != circ:
         ctx.fail(key, f"{spec.name}: declared num_qubits = {decl} but definition has {circ} qubits", case)
     else:
@@ -550,7 +629,8 @@ def run_place(ctx, case):
     r = _rng(case.get("seed", 0) + 17)
     m, subset, entry = case["m"], case["subset"], case["entry"]
     try:
-        ref_gate = spec.build(copy.deepcopy(args), copy.deepcopy(spec.ref_kw(case["entry"], kw)))
+        kw_canon = build_case(case, canon=True)[2] if case["p"].get("forms") else kw
+        ref_gate = spec.build(copy.deepcopy(args), copy.deepcopy(spec.ref_kw(case["entry"], kw_canon)))
         w = ref_gate.num_qubits
         ref_def = ref_gate.definition
     except Exception as e:
@@ -576,6 +656,11 @@ def run_place(ctx, case):
         return
     eff = list(range(m)) if entry == "initialize-none" else list(subset)
     unitary_def = not has_reset(ref_def)
+    if case["p"].get("forms") and has_reset(host) == unitary_def:
+        ctx.fail(f"flagforms:{spec.name}:{forms_tag(case['p']['forms'])}:reset-structure", f"{spec.name} via {entry} with "
+                 f"{forms_tag(case['p']['forms'])}: the placed gate {'contains' if unitary_def else 'does not contain'} resets, "
+                 f"the gate of the canonical value {'does not' if unitary_def else 'does'} [{key}]", case)
+        return
     worst, what = 0.0, ""
     if unitary_def:
         u = opmat(ref_def)
@@ -638,6 +723,9 @@ def run_place(ctx, case):
         ctx.ok(key, nontrivial=nontriv, sample={"place": spec.name, "p": case["p"], "m": m, "subset": subset,
                                                 "entry": entry, "worst": worst})
         ctx.count("place:" + spec.name)
+        for k_, f_ in (case["p"].get("forms") or {}).items():
+            ctx.count(f"flagforms:{k_}:{f_}")
+            ctx.count(f"flagforms:{k_}:{f_}:{kw_option(kw_canon, k_)!r}:via {entry}")
 
 
 def run_inverse(ctx, case):
@@ -652,6 +740,8 @@ def run_inverse(ctx, case):
         ctx.fail(key, f"building {spec.name} raised {type(e).__name__}: {str(e)[:200]}", case)
         return
     if d0.num_qubits != w:
+        return
+    if not form_vs_canonical(ctx, case, spec, gate, key):
         return
     u0 = opmat(d0)
     try:
@@ -2448,9 +2538,17 @@ def dv_options(name, n, m=0):
     return [None], []
 
 
-def dv_inputs(case):
+def dv_inputs(case, canon=False):
     """-> (class, positional data (raw), keyword arguments of the class-level construction, keyword arguments of the static
-    helper).  Deterministic in the case; every object is freshly built (owned by the caller of this function)."""
+    helper).  Deterministic in the case; every object is freshly built (owned by the caller of this function).  Option values
+    are handed over in the form `case["forms"]` names (`canon`: canonical values - the reference construction)."""
+    cls, raw, kw, skw = _dv_inputs(case)
+    if case.get("forms") and not canon:
+        kw, skw = apply_forms(kw, case["forms"]), apply_forms(skw, case["forms"])
+    return cls, raw, kw, skw
+
+
+def _dv_inputs(case):
     name, n, form = case["cls"], case["n"], case["form"]
     r = _rng(case["seed"])
     spec = REG[name]
@@ -2573,6 +2671,8 @@ def _dv_key(case):
     for k in ("k", "m", "probs", "ctor", "label", "q2"):
         if case.get(k) is not None:
             bits.append(f"{k}={case[k]}")
+    if case.get("forms"):
+        bits.append("forms=" + forms_tag(case["forms"]))
     return ":".join(str(b) for b in bits)
 
 
@@ -2637,7 +2737,7 @@ def _run_div(ctx, case):
     tol_form = 1e-3 if reduced else TOL      # brief: a silent wrong result is an error > 1e-3
     try:
         cls, raw, kw, skw = dv_inputs(case)
-        _, raw_ref, kw_ref, _ = dv_inputs(case)               # an independent, equal copy for the reference construction
+        _, raw_ref, kw_ref, _ = dv_inputs(case, canon=True)   # an independent, equal copy for the reference construction
     except Exception as e:
         ctx.notes.append(f"harness: diversity input {case} could not be generated: {type(e).__name__} {e}")
         return
@@ -2770,6 +2870,9 @@ def _run_div(ctx, case):
         elif call == "inv-inv":
             g = cls(raw, **kw)
             gi = g.inverse().inverse()
+            if case.get("label") is not None and g.label != case["label"]:
+                ctx.fail("div-label:" + _dv_key(case), f"{name}(..., label={case['label']!r}) has label {g.label!r}", case)
+                return
             if not (isinstance(gi.label, str) and gi.label == (g.label or "") + "_dg_dg"):
                 ctx.fail("div-label:" + _dv_key(case), f"{name}.inverse().inverse(): label {gi.label!r}, gate label {g.label!r}", case)
                 return
@@ -2862,6 +2965,11 @@ def _run_div(ctx, case):
     ctx.count("diversity:size:" + f"{name}:n={case['n']}")
     o = case.get("opt")
     ctx.count("diversity:options:" + ("None" if o is None else "{}" if not o else "one key" if len(o) == 1 else "several keys"))
+    for k_, f_ in (case.get("forms") or {}).items():
+        ctx.count(f"flagforms:{k_}:{f_}")
+        ctx.count(f"flagforms:{k_}:{f_}:{kw_option(kw_ref, k_)!r}:via {call}")
+    if case.get("label") == "":
+        ctx.count("flagforms:label:'':via " + call)
     if case.get("visible"):
         # the option is meant to change the operator: confirm that a dropped option WOULD be seen
         try:
@@ -3125,6 +3233,118 @@ def diversity_cases(ctx):
             cases.append(_dv_case(rng, "MixedInitialize", 2, "c128-haar", copy.deepcopy(opt), call, rng.choice(["int", "qubit", "regs-int"]),
                                   rng.choice([0, 1]), k=2 + (1 if "classical" not in ctor else 0), probs=probs, ctor=dict(ctor),
                                   **({"label": label} if label else {"label": None})))
+    return cases
+
+
+# ---- option-value forms: truthy / falsy values that are not the singletons, valid falsy values, numpy integers
+
+FLAG_ROWS = [
+    # (class, boolean option, sizes n on both sides of what the flag selects, canonical options next to the flag (rotating), m)
+    ("TopDownInitialize", "global_phase", (1, 2, 3), [{}, {"lib": "qclib"}], None),
+    ("UCGInitialize", "preserve_previous", (1, 2, 3), [{}, {"target_state": 1}, {"target_state": 0}], None),
+    ("UCGEInitialize", "preserve_previous", (1, 2, 3), [{"target_state": 0}, {}, {"target_state": 1}], None),
+    ("CvoqramInitialize", "with_aux", (1, 2, 3), [{}, {"mcg_method": "linear"}], (2, 3, 4)),     # n = 1: empty work register
+    ("PivotInitialize", "aux", (2, 3, 3), [{}], (3, 5, 4)),                                        # 1 and 2 work qubits
+    ("BaaLowRankInitialize", "use_low_rank", (2, 3, 3), [{"max_fidelity_loss": 0.3}, {"max_fidelity_loss": 0.3, "strategy": "brute_force"},
+                                                         {"max_fidelity_loss": 0.0}], None),
+]
+NUM_ROWS = [
+    # (class, option, [(canonical value as a function of n, forms)], sizes, options next to it)
+    ("LowRankInitialize", "lr", [(lambda n: 0, ("int", "np.int64")), (lambda n: 1, ("int", "np.int64"))], (2, 3), [{}, {"partition": [0]}]),
+    ("UCGInitialize", "target_state", [(lambda n: 0, ("int", "np.int64")), (lambda n: 2 ** n - 1, ("int", "np.int64")),
+                                       (lambda n: 2 ** (n - 1), ("int", "np.int64"))], (2, 3), [{}, {"preserve_previous": True}]),
+    ("UCGEInitialize", "target_state", [(lambda n: 0, ("int", "np.int64")), (lambda n: 2 ** n - 1, ("int", "np.int64")),
+                                        (lambda n: 2 ** (n - 1), ("int", "np.int64"))], (2, 3), [{"preserve_previous": True}, {}]),
+    ("BaaLowRankInitialize", "max_fidelity_loss", [(lambda n: 0, ("int", "float", "np.float64")), (lambda n: 0.3, ("float", "np.float64"))],
+     (2, 3), [{}, {"use_low_rank": True}]),
+    ("BaaLowRankInitialize", "max_combination_size", [(lambda n: 0, ("int", "np.int64")), (lambda n: 1, ("int", "np.int64"))], (2, 3),
+     [{"strategy": "brute_force", "max_fidelity_loss": 0.3}]),
+    ("BdspInitialize", "split", [(lambda n: 1, ("np.int64",)), (lambda n: n, ("np.int64",))], (2,), [{}]),
+]
+
+
+def flag_cases(ctx):
+    """Every boolean option of the initializers as True and False, each as bool, numpy.bool_ and int 1 / 0, through the
+    constructor (append), the static helper with keywords (init) and with positional arguments (init-pos) - the constructor-only
+    flags of MixedInitialize through append / compose; every option with a valid falsy value (lr 0, target_state 0, loss 0 / 0.0,
+    max_combination_size 0, label '') in each numeric form next to a non-zero one, integer options as numpy integers at both
+    ends of their range and in the middle.  Judged by the diversity oracle against the construction with the CANONICAL value
+    (same operator embedded on the same ordered qubits; exact classes: the requested state); width-changing flags are also
+    width rows of the tie (canonical value in the row)."""
+    rng = ctx.rng
+    cases = []
+    calls = ("append", "init", "init-pos")
+    styles = ("int", "qubit", "regs-int", "reg-rev", "tuple", "mixed")
+    off = rng.randrange(64)
+    for ri, (name, flag, sizes, nexts, ms) in enumerate(FLAG_ROWS):
+        gform = _dv_generic_form(name)
+        for vi, val in enumerate((True, False)):
+            for fi, form in enumerate(FLAG_FORMS):
+                for ci, call in enumerate(calls):
+                    j = (off + ri + vi + fi + ci) % len(sizes)
+                    opt = dict(copy.deepcopy(nexts[(off + vi + 2 * fi + ci) % len(nexts)]), **{flag: val})
+                    more = {"forms": {flag: form}, "label": None}
+                    if ms:
+                        more["m"] = ms[j]
+                    cases.append(_dv_case(rng, name, sizes[j], gform, opt, call, styles[(off + fi + 2 * ci + vi) % len(styles)],
+                                          (1, 0, 2)[(off + ci + vi) % 3], **more))
+    # MixedInitialize: reset / classical are keywords of the constructor only
+    for fi2, flag in enumerate(("reset", "classical")):
+        for vi, val in enumerate((True, False)):
+            for fi, form in enumerate(FLAG_FORMS):
+                for ci, call in enumerate(("append", "compose-gate")):
+                    other = bool((off + vi + fi + ci) % 2)
+                    ctor = {"reset": other, "classical": other}
+                    ctor[flag] = val
+                    n = 2 if (ctor["classical"] is False or (off + fi + ci) % 2) else 1
+                    cases.append(_dv_case(rng, "MixedInitialize", n, "c128-haar", None, call, styles[(off + fi + ci) % len(styles)],
+                                          (1, 0)[(fi + ci) % 2], k=2 + (off + vi + ci) % 2, probs=(None, "list")[(fi + vi) % 2],
+                                          ctor=ctor, forms={flag: form}, label=None))
+    # options with a valid falsy value / integer options as numpy integers
+    for ri, (name, key_, values, sizes, nexts) in enumerate(NUM_ROWS):
+        gform = _dv_generic_form(name)
+        j = off + ri
+        for valf, forms in values:
+            for form in forms:
+                for n in sizes:
+                    j += 1
+                    opt = dict(copy.deepcopy(nexts[j % len(nexts)]), **{key_: valf(n)})
+                    cases.append(_dv_case(rng, name, n, gform, opt, calls[j % 3], styles[j % len(styles)], (1, 0, 2)[j % 3],
+                                          forms={key_: form}, label=None,
+                                          **({"exact_state": True} if name[:3] == "UCG" else {})))
+    # label '' (given, but falsy): the gate's label, and the inverse's "_dg"
+    for i, name in enumerate(DV_SIZES):
+        n = DV_SIZES[name][0]
+        for call in ("append", "inv-inv"):
+            cases.append(_dv_case(rng, name, n, _dv_generic_form(name), None, call, styles[(off + i) % len(styles)], 1, label=""))
+    # width rows of the tie for the two flags that change the width (canonical value in the row), and the gate classes' flags
+    # through the constructor (their static helpers are K-C15-1 / K-C15-2)
+    for form in ("np.bool_", "int"):
+        for val in (True, False):
+            for n, m_ in ((3, 3), (4, 9)):
+                cases.append({"kind": "width", "cls": "PivotInitialize", "p": {"n": n, "m": m_, "opt": {"aux": val}, "forms": {"aux": form}}})
+            for n, m_ in ((1, 2), (3, 3)):
+                cases.append({"kind": "width", "cls": "CvoqramInitialize",
+                              "p": {"n": n, "m": m_, "opt": {"with_aux": val}, "forms": {"with_aux": form}}})
+            gate_rows = [("McxVchainDirty", {"k": 3, "t": 1, "rp": val, "ao": False}, "relative_phase", 5),
+                         ("McxVchainDirty", {"k": 4, "t": 1, "rp": val, "ao": not val}, "relative_phase", 7),
+                         ("McxVchainDirty", {"k": 3, "t": 2, "rp": False, "ao": val}, "action_only", 6),
+                         ("McxVchainDirty", {"k": 4, "t": 1, "rp": not val, "ao": val}, "action_only", 7),
+                         ("LinearMcx", {"k": 3, "ao": val}, "action_only", 5), ("LinearMcx", {"k": 5, "ao": val, "cs": "01101"}, "action_only", 7),
+                         ("Mcg", {"k": 2, "utd": val}, "up_to_diagonal", 3), ("Mcg", {"k": 3, "utd": val, "u": "su2"}, "up_to_diagonal", 4)]
+            for name, p, flag, w in gate_rows:
+                p = dict(p, forms={flag: form})
+                cases.append({"kind": "width", "cls": name, "p": p})
+                m = w + 1
+                cases.append({"kind": "place", "cls": name, "p": p, "m": m, "subset": random_subset(rng, m, w), "entry": "append",
+                              "style": rng.choice(["int", "qubit"])})
+    for c in cases:
+        c.setdefault("seed", rng.getrandbits(31))
+    # MCU.mcu: error 0.0 (float form of the exact value 0) next to 0 and 0.3 of the sweep
+    s_ = random_subset(rng, 7, 6)
+    cases.append({"kind": "helper", "fn": "MCU.mcu", "p": {"u": "z", "error": 0.0}, "m": 7, "controls": s_[:5], "targets": s_[5:],
+                  "seed": rng.getrandbits(31)})
+    ctx.count("flagforms:error:float 0.0:via MCU.mcu")
     return cases
 
 
@@ -3515,6 +3735,8 @@ def run(ctx):
     probes(ctx)
     for case in diversity_cases(ctx) + diversity_fn_cases(ctx):
         run_case(ctx, case)
+    for case in flag_cases(ctx):
+        run_case(ctx, case)
     diversity_probes(ctx)
     diversity_findings(ctx)
 
@@ -3532,7 +3754,7 @@ def search(ctx, hints):
         run_case(ctx, case)
     for case in loop_cases(ctx):
         run_case(ctx, case)
-    for case in diversity_cases(ctx) + diversity_fn_cases(ctx):
+    for case in diversity_cases(ctx) + diversity_fn_cases(ctx) + flag_cases(ctx):
         run_case(ctx, case)
     probes(ctx)
 
